@@ -36,6 +36,8 @@ def run(ctx):
     R.rule_R6_string_compare(ctx, typer, funcs)
     R.rule_R7_parts_unmodified(ctx, typer)
     R.rule_R8_split_unfiltered(ctx, typer)
+    R.rule_R9_component_dispatch(ctx, typer, "glob")
+    ctx.floor("R9", 4)
     R.rule_G2_all_caches(ctx, typer)
     ctx.floor("R6", 2)
     R.rule_G4_handlers(ctx, funcs)
